@@ -7,9 +7,10 @@
 -/
 import ClairModel.Proofs.Feeds
 import ClairModel.Gen.Severity
+import ClairModel.Gen.Feeds
 
 namespace ClairModel.Props.C14
-open ClairModel.Feeds ClairModel.Gen.Severity
+open ClairModel.Feeds ClairModel.Gen.Severity ClairModel.Gen.Feeds
 
 /-- The six Severity constants of severity.go are, in order, the six strings the
     documentation lists. -/
@@ -115,5 +116,299 @@ theorem severity_in_range :
    by decide,
    fun k v h => rate_lt _ _ k v (by decide) h,
    fun k v h => rate_lt _ _ k v (by decide) h⟩
+
+/-! ## Part 2: the flat formats (Alpine secdb, Debian tracker, Amazon updateinfo)
+
+  The models are functions of the decoded document; `…Stated` reads the
+  entries the document states (Proofs/Feeds.lean).  "Exactly one
+  vulnerability per stated entry, carrying its identifier, package, fixed
+  version and release": the result is the list of stated entries, in order,
+  each mapped to its vulnerability. -/
+
+/-- Alpine: one vulnerability per (package, fixed version, identifier) of the
+    secdb — also for the "0" version the format uses for "not affected", which
+    is carried as `FixedInVersion = "0"` (the Alpine matcher never reports it;
+    checked on the implementation by the harness). -/
+theorem secdb_exact (linkPrefix : String) (sevConst : Nat) (updater dist : String) (pkgs : List SecdbPkg) :
+    secdbParse linkPrefix sevConst updater dist pkgs = (secdbStated pkgs).map fun t =>
+      ({ updater := updater, name := t.2.2, links := linkPrefix ++ t.2.2, nsev := sevConst, hasPkg := true,
+         pkgName := t.1, pkgKind := "source", fixed := t.2.1, dist := dist } : Vuln) := by
+  simp [secdbParse, secdbStated, unpackSecFixes, List.map_flatMap, List.map_map, Function.comp_def]
+
+/-- Debian: one vulnerability per (source package, identifier, known release)
+    with that release's distribution, fixed version, urgency and its severity. -/
+theorem debian_exact (linkPrefix : String) (sev : String → Nat) (known : List (String × String))
+    (data : List (String × List DebVuln)) :
+    debianParse linkPrefix sev known data = (debStated known data).map fun e =>
+      ({ updater := "debian/updater", name := e.id, desc := e.desc, links := linkPrefix ++ e.id, sev := e.urgency,
+         nsev := sev e.urgency, dist := e.dist, fixed := e.fixed, hasPkg := true, pkgName := e.src, pkgKind := "source" } : Vuln) := by
+  simp only [debianParse, debStated, List.map_flatMap]
+  congr 1; funext src; congr 1; funext v
+  rw [List.map_filterMap]
+  congr 1; funext r
+  cases getDist known r.release <;> rfl
+
+/-- Debian: the stated entries are exactly the (source, identifier, release)
+    triples of the document whose release is known — entries for unknown
+    releases (sid, unreleased) yield nothing, nothing else is dropped. -/
+theorem debian_release_filter (known : List (String × String)) (data : List (String × List DebVuln)) (e : DebStated) :
+    e ∈ debStated known data ↔ ∃ src ∈ data, ∃ v ∈ src.2, ∃ r ∈ v.releases,
+      getDist known r.release = some e.dist ∧
+      e = { src := src.1, id := v.id, desc := v.desc, dist := e.dist, fixed := r.fixed, urgency := r.urgency } := by
+  simp only [debStated, List.mem_flatMap, List.mem_filterMap, Option.map_eq_some_iff]
+  constructor
+  · rintro ⟨src, hs, v, hv, r, hr, d, hd, rfl⟩
+    exact ⟨src, hs, v, hv, r, hr, hd, rfl⟩
+  · rintro ⟨src, hs, v, hv, r, hr, hd, he⟩
+    exact ⟨src, hs, v, hv, r, hr, e.dist, hd, he.symm⟩
+
+/-- Amazon: one vulnerability per (update, package) with `[epoch:]version-release`
+    as fixed version, the package's arch and an arch-equals constraint. -/
+theorem aws_exact (sev : String → Nat) (updater dist : String) (ups : List AlasUpdate) :
+    awsParse sev updater dist ups = (awsStated ups).map fun t =>
+      ({ updater := updater, name := t.1.id, desc := t.1.desc, links := " ".intercalate t.1.refs, sev := t.1.severity,
+         nsev := sev t.1.severity, dist := dist, archOp := 1, hasPkg := true, pkgName := t.2.name, pkgKind := "binary",
+         pkgArch := t.2.arch, fixed := alasVersion t.2 } : Vuln) := by
+  simp [awsParse, awsStated, List.map_flatMap, List.map_map, Function.comp_def]
+
+/-! ## Part 3: OVAL -/
+
+/-- The regular expressions the OVAL models hard-code are still the ones in the
+    sources (module comment, Red Hat definition identifier, valid dpkg version). -/
+theorem oval_regex_sources :
+    ovalModuleCommentRegex = "(Module )(.*)( is enabled)" ∧
+    ovalDefinitionTypeRegex = "^oval\\:com\\.redhat\\.([a-z]+)\\:def\\:\\d+$" ∧
+    ovalValidVersionRegex = "\\A([0-9]+:)?[-_A-Za-z0-9.+:~]+(-[A-Za-z0-9+.~]+)?\\z" := by decide
+
+/-- `walkCriterion` returns exactly the criterions of the tree, whatever the
+    nesting: membership is "occurs at some node", and nothing is duplicated or
+    lost (the length is the number of criterions). -/
+theorem oval_walk_leaves (c : Criteria) :
+    (∀ x, x ∈ walk c ↔ Occurs x c) ∧ (walk c).length = critCount c :=
+  ⟨fun x => walk_mem x c, walk_length c⟩
+
+/-- `RPMDefsToVulns` (oracle, suse, photon, rhel): when no referenced rpminfo
+    test lacks its `<object>`, the result is, definition by definition, one
+    vulnerability per (prototype of the definition, criterion that resolves to
+    an rpminfo object [and a state with EVR], enabled module); a definition
+    whose prototype function fails or returns nothing contributes nothing. -/
+theorem oval_rpm_exact (root : OvalRoot) (proto : ProtoFn) (defs : List OvalDef)
+    (h : ∀ d ∈ defs, ∀ c ∈ walk d.criteria, leafOk "rpminfo_test" "rpminfo_object" "rpminfo_state" root c = true) :
+    rpmDefsToVulns root proto defs = some (defs.flatMap (rpmDefSpec root proto)) :=
+  rpmDefsToVulns_eq root proto defs h
+
+/-- Criterions whose test is missing or of another kind (platform, signature,
+    uname, text-file tests) resolve to nothing. -/
+theorem oval_other_tests_skipped (tk ok sk : String) (root : OvalRoot) (c : Criterion)
+    (h : ∀ t, assoc? root.tests c.testRef = some t → t.kind ≠ tk) :
+    resolveLeaf tk ok sk root c = .skip := by
+  unfold resolveLeaf
+  cases ht : assoc? root.tests c.testRef with
+  | none => rfl
+  | some t => simp [h t ht]
+
+/-- A state without EVR (signature key, release version checks) makes the criterion resolve to nothing. -/
+theorem oval_state_without_evr_skipped (tk ok sk : String) (root : OvalRoot) (c : Criterion) (t : OvalTest)
+    (sref : String) (rest : List String) (st : OvalState)
+    (ht : assoc? root.tests c.testRef = some t) (hs : t.stateRefs = sref :: rest)
+    (hst : assoc? root.states sref = some st) (he : st.evr = none) (ho : t.objRefs ≠ []) :
+    resolveLeaf tk ok sk root c = .skip := by
+  unfold resolveLeaf
+  simp only [ht]
+  split
+  · rfl
+  · cases hobj : t.objRefs with
+    | nil => exact absurd hobj ho
+    | cons oref _ =>
+      simp only
+      cases assoc? root.objects oref with
+      | none => rfl
+      | some o =>
+        simp only
+        split
+        · rfl
+        · simp [hs, hst, he]
+
+/-- Red Hat: a definition of type `unaffected` or `none` (and `cve` when
+    unpatched vulnerabilities are ignored) yields nothing, whatever its criteria. -/
+theorem oval_rhel_unaffected_nothing (root : OvalRoot) (sev : String → Nat) (updater dist : String) (ign : Bool)
+    (d : OvalDef) (t : String) (ht : rhelDefType d.id = some t)
+    (hs : t = ovalDefUnaffected ∨ t = ovalDefNone ∨ (ign = true ∧ t = ovalDefCve)) :
+    rpmDefSpec root (protoRhel sev updater dist ign ovalDefUnaffected ovalDefNone ovalDefCve) d = [] := by
+  unfold rpmDefSpec protoRhel
+  simp only [ht]
+  rw [if_pos (by rcases hs with h | h | ⟨h1, h2⟩ <;> simp [*])]
+  simp
+
+/-- With at most one module comment in the definition the walk is exact: there
+    is one module `m` (that comment's module, or "" when there is none) and the
+    definition yields one vulnerability per (package criterion, prototype), each
+    carrying `m`.  (`_partial`: the hypothesis excludes definitions with
+    several module comments, see the counterexample.) -/
+theorem oval_rpm_modules_exact_partial (root : OvalRoot) (proto : ProtoFn) (d : OvalDef) (ps : List Vuln)
+    (hp : proto d = some ps) (hm : (enabledModules (walk d.criteria)).length ≤ 1) :
+    ∃ m, modulesOf (walk d.criteria) = [m] ∧
+      rpmDefSpec root proto d =
+        (resolvedLeaves "rpminfo_test" "rpminfo_object" "rpminfo_state" root (walk d.criteria)).flatMap fun l =>
+          ps.map fun p => rpmVuln p l.1 l.2.1 m := by
+  have : ∃ m, modulesOf (walk d.criteria) = [m] := by
+    unfold modulesOf
+    cases hmods : enabledModules (walk d.criteria) with
+    | nil => exact ⟨"", rfl⟩
+    | cons m rest =>
+      rw [hmods] at hm
+      cases rest with
+      | nil => exact ⟨m, rfl⟩
+      | cons _ _ => simp at hm
+  obtain ⟨m, hmm⟩ := this
+  refine ⟨m, hmm, ?_⟩
+  unfold rpmDefSpec
+  simp [hp, hmm]
+
+/-- The full statement fails with two module streams in one definition:
+    `OR[AND[Module nodejs:12, nodejs], AND[Module nodejs:14, npm]]` states the pairs
+    (nodejs, nodejs:12) and (npm, nodejs:14); the walk also returns
+    (nodejs, nodejs:14) and (npm, nodejs:12).  Finding `oval-module-flattening`. -/
+theorem oval_module_flattening_counterexample :
+    let root : OvalRoot :=
+      { tests := [("t1", { kind := "rpminfo_test", objRefs := ["o1"], stateRefs := [] }),
+                  ("t2", { kind := "rpminfo_test", objRefs := ["o2"], stateRefs := [] })],
+        objects := [("o1", { kind := "rpminfo_object", name := "nodejs" }), ("o2", { kind := "rpminfo_object", name := "npm" })],
+        states := [], variables := [] }
+    let crit : Criteria := .node
+      [.node [] [⟨"m1", "Module nodejs:12 is enabled"⟩, ⟨"t1", "nodejs is earlier than 1"⟩],
+       .node [] [⟨"m2", "Module nodejs:14 is enabled"⟩, ⟨"t2", "npm is earlier than 2"⟩]] []
+    let d : OvalDef := { id := "oval:com.redhat.rhsa:def:1", title := "RHSA", desc := "", severity := "", refUrls := [], advRefs := [],
+                         bugs := [], cveHrefs := [], platforms := [], cpes := [], criteria := crit }
+    ((rpmDefSpec root (protoSingle (fun _ => 0) "u" "d") d).map fun v => (v.pkgName, v.pkgModule)) =
+      [("nodejs", "nodejs:12"), ("nodejs", "nodejs:14"), ("npm", "nodejs:12"), ("npm", "nodejs:14")] := by
+  decide
+
+/-- `DpkgDefsToVulns` (ubuntu): one vulnerability per (prototype, criterion that
+    resolves to a dpkginfo object whose state — if any — has a valid version,
+    package name of the object or of its constant variable). -/
+theorem oval_dpkg_exact (root : OvalRoot) (proto : ProtoFn) (defs : List OvalDef)
+    (h : ∀ d ∈ defs, ∀ c ∈ walk d.criteria, leafOk "dpkginfo_test" "dpkginfo_object" "dpkginfo_state" root c = true) :
+    dpkgDefsToVulns root proto defs = some (defs.flatMap (dpkgDefSpec root proto)) :=
+  dpkgDefsToVulns_eq root proto defs h
+
+/-! ## Part 4: OSV -/
+
+/-- SEMVER range, any number of intervals `introduced (fixed | last_affected)?`
+    with only the last one possibly open: `Insert` builds exactly one range cell
+    per interval, in order, each with the interval's bounds (`semverCell`):
+    lower from `introduced` ("0" = −∞), upper and FixedInVersion from `fixed`,
+    upper = next patch from `last_affected` — unless the affected entry lists
+    versions, in which case a `last_affected` bound is dropped (see
+    `osv_semver_ranges_exact_partial`). -/
+theorem osv_semver_cells (hasVersions : Bool) (ivs : List Interval) (h : WellShaped ivs) :
+    (runEvents .semver hasVersions {} (eventsOf ivs)).vers = ivs.map (semverCell hasVersions) := by
+  have := semver_intervals_aux hasVersions ivs {} between_init h
+  simpa using this
+
+/-- The cells are the ones the OSV schema states (`specCell`) when the affected
+    entry lists no versions or no interval ends with `last_affected`.
+    (`_partial`: exactly this hypothesis; finding `osv-last-affected-with-versions`.) -/
+theorem osv_semver_ranges_exact_partial (hasVersions : Bool) (ivs : List Interval) (h : WellShaped ivs)
+    (hl : hasVersions = false ∨ NoLastAffected ivs) :
+    (runEvents .semver hasVersions {} (eventsOf ivs)).vers = ivs.map specCell := by
+  rw [osv_semver_cells hasVersions ivs h]
+  apply List.map_congr_left
+  intro iv hiv
+  apply semverCell_eq_spec
+  rcases hl with hl | hl
+  · exact Or.inl hl
+  · exact Or.inr (hl iv hiv)
+
+/-- `introduced 1.0.0, last_affected 1.1.0` with a versions list: the schema
+    states the upper bound 1.1.1, `Insert` leaves the range unbounded. -/
+theorem osv_last_affected_with_versions_counterexample :
+    let ivs : List Interval := [⟨"1.0.0", some (1, 0, 0, false), some (.lastAffected "1.1.0" (some (1, 1, 0, false)))⟩]
+    WellShaped ivs ∧
+    (runEvents .semver true {} (eventsOf ivs)).vers ≠ ivs.map specCell ∧
+    ((runEvents .semver true {} (eventsOf ivs)).vers.map fun c => (finalRange c).upper) = [{ kind := "semver", v0 := 65535 }] ∧
+    ((ivs.map specCell).map fun c => (finalRange c).upper) = [{ kind := "semver", v1 := 1, v2 := 1, v3 := 1 }] := by
+  intro ivs
+  refine ⟨by simp [ivs, WellShaped, Closing.version], by decide, by decide, by decide⟩
+
+/-- `introduced 0, fixed 1.2.3, limit "*"`: a `*` limit means "no limit" in the
+    schema, so the range is [0, 1.2.3); `Insert` overwrites the upper bound's
+    epoch slot with 65535.  Finding `osv-limit-overrides-fixed`. -/
+theorem osv_limit_overrides_fixed_counterexample :
+    let evs : List OsvEvent := [{ introduced := "0" }, { fixed := "1.2.3", fixedV := some (1, 2, 3, false) }, { limit := "*" }]
+    ((runEvents .semver false {} evs).vers.map fun c => ((finalRange c).upper, c.fixed)) =
+      [({ kind := "semver", v0 := 65535, v1 := 1, v2 := 2, v3 := 3 }, "1.2.3")] := by
+  decide
+
+/-- Maven / PyPI / RubyGems ECOSYSTEM range: one cell per interval, holding the
+    query-string values `introduced` (omitted for "0"), then `fixed` or
+    `lastAffected`, and no semver range. -/
+theorem osv_encoded_ranges_exact (ivs : List Interval) (h : WellShaped ivs) :
+    (runEvents .encoded false {} (eventsOf ivs)).vers = ivs.map encCell := by
+  have := enc_intervals_aux ivs {} betweenEnc_init h
+  simpa using this
+
+/-- ECOSYSTEM range of any other ecosystem: whatever the events, at most one
+    vulnerability per range (after the fix of the duplicate append). -/
+theorem osv_other_at_most_one (hasVersions : Bool) (evs : List OsvEvent) :
+    (runEvents .other hasVersions {} evs).vers.length ≤ 1 :=
+  other_vers_length hasVersions evs {} rfl (by decide)
+
+/-- … and that one cell keeps only the last `fixed`: two intervals are merged,
+    the first fixed version is lost.  Finding `osv-ecosystem-intervals-merged`. -/
+theorem osv_ecosystem_intervals_merged_counterexample :
+    let ivs : List Interval := [⟨"0", none, some (.fixed "1.5.0" none)⟩, ⟨"2.0.0", none, some (.fixed "2.5.0" none)⟩]
+    WellShaped ivs ∧ ((runEvents .other false {} (eventsOf ivs)).vers.map fun c => c.fixed) = ["2.5.0"] := by
+  intro ivs
+  refine ⟨by simp [ivs, WellShaped, Closing.version], by decide⟩
+
+/-- The vulnerability of a SEMVER interval `[a, b)` with parsable bounds and
+    `a ≤ b`: the range is `[semver a, semver b)`, FixedInVersion is the `fixed` string. -/
+theorem osv_semver_vulnerability (eco : OsvEcosystems) (proto : Vuln) (ecosystem : String)
+    (a b : Nat × Nat × Nat × Bool) (si sf : String) (hi : si ≠ "0")
+    (hle : (fromSemver a).cmp (fromSemver b) ≠ .gt) :
+    cellVuln eco proto ecosystem (specCell ⟨si, some a, some (.fixed sf (some b))⟩) =
+      some { proto with range := some { lower := fromSemver a, upper := fromSemver b }, fixed := sf } := by
+  simp [cellVuln, specCell, semverCell, semverIntro, semverClose, hi, finalRange, fromSemver] at hle ⊢
+  exact hle
+
+/-- Withdrawn advisories (withdrawal date in the past) and advisories without
+    `affected` entries yield nothing. -/
+theorem osv_withdrawn_unaffected_skipped (eco : OsvEcosystems) (dbSev : String → Nat) (uris : List (String × String))
+    (updater repoName : String) (a : OsvAdvisory) (rest : List OsvAdvisory)
+    (h : a.withdrawnPast = true ∨ a.affected = []) :
+    osvParse eco dbSev uris updater repoName (a :: rest) = osvParse eco dbSev uris updater repoName rest := by
+  rcases h with h | h <;> simp [osvParse, h]
+
+/-- An advisory all of whose ranges are GIT ranges yields nothing; so does every GIT range. -/
+theorem osv_git_nothing (eco : OsvEcosystems) (dbSev : String → Nat) (uris : List (String × String))
+    (updater repoName : String) (a : OsvAdvisory) (proto : Vuln) (af : OsvAffected) (r : OsvRange) :
+    (gitOnly a = true → osvInsert eco dbSev uris updater repoName a = some []) ∧
+    (r.type = "GIT" → osvRange eco proto af r = some []) := by
+  constructor
+  · intro h; simp [osvInsert, h]
+  · intro h; simp [osvRange, h]
+
+/-- The severity `Insert` assigns is one of the six values whenever the CVSS
+    ratings it is given are (C18) — the `database_specific` fallback always is. -/
+theorem osv_severity_in_range (a : OsvAdvisory) (h : ∀ s ∈ a.severities, s.rating < 6) :
+    (osvSeverity (normalize codeOsvDbMode codeOsvDb codeOsvDbDefault) a).2 < 6 := by
+  have hcv : ∀ (l : List OsvSeverity) (acc : String × Nat), (∀ s ∈ l, s.rating < 6) → acc.2 < 6 → (osvCvss l acc).2 < 6 := by
+    intro l
+    induction l with
+    | nil => intro acc _ h2; exact h2
+    | cons s rest ih =>
+      intro acc h1 h2
+      simp only [osvCvss]
+      split
+      · exact ih _ (fun s' hs' => h1 s' (List.mem_cons_of_mem _ hs')) (h1 s (List.mem_cons_self ..))
+      · exact ih _ (fun s' hs' => h1 s' (List.mem_cons_of_mem _ hs')) h2
+  unfold osvSeverity
+  simp only
+  split
+  · cases a.dbSeverity with
+    | none => exact hcv _ _ h (by decide)
+    | some s => exact normalize_lt _ _ _ _ s (by decide) (by decide)
+  · exact hcv _ _ h (by decide)
 
 end ClairModel.Props.C14
